@@ -3,10 +3,10 @@
 (* from an initial state every sequence of abstract editor steps (type / erase, cursor moves that scroll,        *)
 (* selection toggles, a new result list, a resize).  Render is a function, so the state machine is only the      *)
 (* enumerator; the invariants say that the rendering satisfies the documented claims.                             *)
-EXTENDS FzfScreen
+EXTENDS FzfScreen, Json
 
 CONSTANTS Widths, Heights, Layouts, Infos, Seps, Headers, Hlines, HeaderFirsts, Inputless, Pointers, Markers,
-          Ellipses, Lists, Multis, Queries, MaxCount,
+          Ellipses, Lists, Multis, Queries, MaxCount, Tracks,
           Acts          \* enabled steps: subset of {"edit", "move", "toggle", "list", "resize"}
 
 VARIABLES g, c, s
@@ -38,9 +38,9 @@ View(st, gg, cc) ==
     IN [st EXCEPT !.cy = cy0, !.offset = off]
 
 Init == /\ g \in Geoms /\ c \in Cfgs
-        /\ \E l \in Lists, m \in Multis :
+        /\ \E l \in Lists, m \in Multis, tr \in Tracks :
              s = [input |-> <<>>, cx |-> 0, xoffset |-> 0, list |-> l, texts |-> TextsOf(l), sel |-> <<>>, multi |-> m, cy |-> 0,
-                  offset |-> 0, count |-> MaxCount]
+                  offset |-> 0, count |-> MaxCount, track |-> tr]
 
 (* a new query with the cursor somewhere in it; the prompt is redrawn (updatePromptOffset) *)
 Edit == \E q \in Queries : \E x \in {0, Len(q) \div 2, Len(q)} :
@@ -89,13 +89,41 @@ InvRowsAreResults ==
     \A r \in ItemRows : VisibleIx(r) <= N(s) =>
         /\ IsPrefix(RTrim(Sub(s.texts[VisibleIx(r)], 1, 1)), RTrim(Sub(R[r] \o Spaces(Indent(c, g) + 1), Indent(c, g) + 1, Indent(c, g) + 1)))
 (* the recursive cut equals its declarative definition *)
-InvTakeW == \A id \in 0..5 : \A lim \in -1..(Len(TextOf(id)) + 2) : TakeW(TextOf(id), lim, g) = TakeWDecl(TextOf(id), lim, g)
+InvTakeW == (s.sel = <<>> /\ s.cy = 0) => \A id \in 0..5 : \A lim \in -1..(Len(TextOf(id)) + 2) : TakeW(TextOf(id), lim, g) = TakeWDecl(TextOf(id), lim, g)
 (* the cursor stays on the prompt line: what is shown before it fits, the offset never passes it *)
 InvCursorVisible == /\ 0 <= s.xoffset /\ s.xoffset <= s.cx
                     /\ QBefore(s, g, c) = Sub(s.input, s.xoffset + 1, s.cx)
                     /\ TW(QShown(s, g, c), g) <= PromptRoom(g, c)
 InvRTrim == \A r \in 1..g.h : R[r] = <<>> \/ R[r][Len(R[r])] # " "
 
+
+-----------------------------------------------------------------------------
+(* Export for the E binding (Gen_Screen*.cfg): every geometry x configuration x a few states, with the rows the    *)
+(* specification predicts.  The driver puts the real program into that state (--disabled, --scroll-off=0, actions  *)
+(* deselect-all / change-multi / change-query / pos / select, resize) and compares the captured screen.             *)
+GenCfgs == {cc \in Cfgs : cc.inputless => (cc.info = "default" /\ cc.sep /\ ~cc.headerFirst)}
+GenCombos == {  \* <<query, cy, selected list positions, multi>>
+    <<<<>>, 0, {}, 0>>,
+    <<<<"a", "b">>, 1, {1}, 5>>,
+    <<<<>>, 2, {2, 5}, 5>>,
+    <<<<"a", " ", "b">>, 0, {1, 2, 3, 4, 5}, 5>>,
+    <<<<"x">>, 3, {4}, MaxMulti>>,
+    <<<<"l", "o">>, 4, {5, 3}, 2>> }
+RECURSIVE SortedSeq(_)
+SortedSeq(S) == IF S = {} THEN <<>> ELSE LET m == CHOOSE x \in S : \A y \in S : x <= y IN <<m>> \o SortedSeq(S \ {m})
+GenInit == /\ g \in Geoms /\ c \in GenCfgs
+           /\ \E l \in Lists, k \in GenCombos :
+                LET vis == Min2(Len(l), MaxItems(g, c))
+                    pos == {p \in k[3] : p <= Len(l)}
+                IN s = [input |-> k[1], cx |-> Len(k[1]), xoffset |-> 0, list |-> l, texts |-> TextsOf(l),
+                        sel |-> [i \in 1..Cardinality(pos) |-> l[SortedSeq(pos)[i]]], multi |-> k[4],
+                        cy |-> IF vis = 0 THEN 0 ELSE Min2(k[2], vis - 1), offset |-> 0, count |-> Len(l), track |-> 0]
+GenNext == UNCHANGED vars
+GenCase == PrintT(<<"CASE", ToJson([w |-> g.w, h |-> g.h, cfg |-> c, st |-> [s EXCEPT !.texts = <<>>],
+                                    items |-> s.texts, rows |-> R])>>)
+MCListsG == {<<1, 0, 5, 3, 4>>}
+MCHeadersG == {<<>>, <<<<"H", "1">>, <<"a", " ", "h", "e", "a", "d", "e", "r", " ", "l", "i", "n", "e", " ", "o", "f", " ", "2", "4", " ", "c", "e", "l", "l", "s">>>>}
+MCHlinesG == {<<>>, <<<<"x", "1">>, <<"x", "2">>>>}
 MCPointers == {<<">">>}
 MCPointers2 == {<<">">>, <<"=", ">">>}
 MCMarkers == {<<">">>}
